@@ -28,6 +28,11 @@ def main():
         if shard.get("backend") == "both":
             B = (backends.get("np"), backends.get("torch"))
         env.seed_all(seed * 1000003 + shard.get("salt", 0))
+        if shard.get("forms"):
+            import numpy as _np
+            for b in (B if isinstance(B, tuple) else (B,)):
+                if b.name == "np":
+                    type(b).flavours = _np.random.default_rng([seed, 4242, shard.get("salt", 0)])
         hooks = []
         if not shard.get("no_hooks"):
             for b in (B if isinstance(B, tuple) else (B,)):
@@ -36,6 +41,8 @@ def main():
         t0 = time.time()
         mod.run(shard, rec, B)
         rec.note("workload_s", time.time() - t0)
+        if shard.get("forms"):
+            rec.note("array_forms_handed_to_library", dict(backends.NP.flavour_counts))
     except BaseException as e:
         tb = traceback.extract_tb(e.__traceback__)
         repo = os.path.realpath(os.environ.get("VP_REPO", "/repo")) + os.sep
